@@ -30,6 +30,8 @@ pub struct Maps {
     pub methodmap: HashMap<String, String>,
     /// path prefixes whose turbofish calls are mangled (R2)
     pub turbofish: HashSet<String>,
+    /// opt-in (`//@litstrings`): R9 string-literal `.to_owned()` / `.to_string()` -> str_to_string(lit)
+    pub litstrings: bool,
 }
 
 pub struct Rw<'a> {
@@ -119,6 +121,19 @@ impl<'a> Rw<'a> {
         let repl: Expr = match name.as_str() {
             "format" => parse_quote!(fmt_opaque()),
             "println" | "eprintln" | "print" | "eprint" => parse_quote!(print_opaque()),
+            // R8: `json!(E)` with a single expression -> `serde_json::json_of(&(E))` (a trait-dispatched stand-in whose result is
+            // the documented reading of E's type); an exprmap naming this very macro call takes precedence
+            "json" => {
+                let key = norm(&mac.to_token_stream());
+                if self.maps.exprmap.iter().any(|(k, _)| *k == key) {
+                    return None;
+                }
+                let inner: Expr = syn::parse2(mac.tokens.clone()).ok()?;
+                let mut ne: Expr = parse_quote!(serde_json::json_of(&(#inner)));
+                self.logit("R8", line_of(mac.path.span()), key, norm(&ne.to_token_stream()));
+                self.visit_expr_mut(&mut ne);
+                return Some(ne);
+            }
             _ => return None,
         };
         self.logit("R5", line_of(mac.path.span()), norm(&mac.to_token_stream()), norm(&repl.to_token_stream()));
@@ -282,6 +297,24 @@ impl<'a> VisitMut for Rw<'a> {
             }
         }
 
+        // R9: `"literal".to_owned()` / `"literal".to_string()` -> str_to_string("literal") (String from a literal has no vstd spec);
+        // an exprmap naming this very call takes precedence
+        let mut lit_repl: Option<Expr> = None;
+        if let Expr::MethodCall(m) = &*e {
+            if self.maps.litstrings && (m.method == "to_owned" || m.method == "to_string") && m.args.is_empty() {
+                if let Expr::Lit(ExprLit { lit: Lit::Str(_), .. }) = &*m.receiver {
+                    let key = norm(&m.to_token_stream());
+                    if !self.maps.exprmap.iter().any(|(k, _)| *k == key) {
+                        let lit = &m.receiver;
+                        lit_repl = Some(parse_quote!(str_to_string(#lit)));
+                    }
+                }
+            }
+        }
+        if let Some(ne) = lit_repl {
+            self.logit("R9", line, norm(&e.to_token_stream()), norm(&ne.to_token_stream()));
+            *e = ne;
+        }
         // R4: downcasts
         if let Expr::MethodCall(m) = e {
             let name = m.method.to_string();
